@@ -4,6 +4,7 @@ CONSTANTS
   MaxEdges = 14
   FailKinds = {"err"}
   AllowDangling = TRUE
+  MaxKind = 0
   MaxMark = 0
   MaxRerun = 0
   Runs = 2
